@@ -54,10 +54,15 @@ func (this *RaftGroup) VerifKill() {
 	this.raft.Stop()
 }
 
-// VerifGroups lists the groups registered with the transport.
+// VerifGroups lists the groups registered with the transport. It never blocks:
+// the simulator's driver calls it at instants at which every goroutine of the
+// system is blocked, and must not queue up behind a lock that the system under
+// test holds for ever (that is something to be observed, not to hang on). At
+// such an instant nobody is in the middle of changing the map.
 func (this *RaftTransport) VerifGroups() []*RaftGroup {
-	this.groupsMu.RLock()
-	defer this.groupsMu.RUnlock()
+	if this.groupsMu.TryRLock() {
+		defer this.groupsMu.RUnlock()
+	}
 	out := make([]*RaftGroup, 0, len(this.groups))
 	for _, g := range this.groups {
 		out = append(out, g)
